@@ -346,12 +346,13 @@ OpaquePos(q, fs, i, off) ==
        (IF IsInt(q, fs[i][1]) THEN {} ELSE (off + 1)..(off + L)) \cup OpaquePos(q, fs, i + 1, off + L)
 OpaqueT == [q \in 1..NP |-> [r \in 1..NRows(q) |-> OpaquePos(q, WriteT[q][r].fields, 1, 10)]]
 \* programs with sweep = 1 (restricted-domain operations): on their first sample EVERY value of
-\* every byte of an integer field and of the two top bytes (sign, exponent) of a float field
+\* every byte of an integer field and of the top byte (sign, exponent) of a float field (the
+\* harness sweeps the real code over both exponent bytes; thorough: over every body byte)
 RECURSIVE SweepPos(_, _, _, _)
 SweepPos(q, fs, i, off) ==
   IF i > Len(fs) THEN {}
   ELSE LET L == Len(fs[i][2]) IN
-       (IF IsInt(q, fs[i][1]) THEN (off + 1)..(off + L) ELSE IF L = 8 THEN {off + 7, off + 8} ELSE {})
+       (IF IsInt(q, fs[i][1]) THEN (off + 1)..(off + L) ELSE IF L = 8 THEN {off + 8} ELSE {})
           \cup SweepPos(q, fs, i + 1, off + L)
 SweepT == [q \in 1..NP |-> IF Progs[q].sweep = 1 THEN SweepPos(q, WriteT[q][1].fields, 1, 10) ELSE {}]
 ModelFlips(k, x) == IF k <= 10 THEN {(x + 1) % 256, (x + 128) % 256}
